@@ -225,6 +225,10 @@ func (s *SignedAccumulator) UnmarshalVerify(pk *gabikeys.PublicKey) (*Accumulato
 	if pk.Counter != s.PKCounter {
 		return nil, errors.New("wrong public key")
 	}
+	if pk.ECDSA == nil {
+		// a public key without a revocation part cannot have signed an accumulator
+		return nil, errors.New("public key does not support revocation")
+	}
 	if err := signed.UnmarshalVerify(pk.ECDSA, s.Data, msg); err != nil {
 		return nil, err
 	}
